@@ -910,3 +910,72 @@ Theorem C09_iteration_queue_view :
                + (if qw true true true then N.of_nat (length pend') else 0))%N.
 Proof. exact c09_iteration_queue_view_spelled. Qed.
 Print Assumptions C09_iteration_queue_view.
+
+(* ---- the two views of pendingFunctors_ and of the timer callbacks, connected --------------- *)
+(* In C09_unblocked_iteration_progress the C06 side (callback scripts [script], queue
+   [T.pending tq]) and this file's side (functor ids: queue p, [hq tc CbRead] = what the timer
+   channel's read callback queued) are independent parameters.  Here they are tied together by three
+   explicit hypotheses under a naming [fun_of] of this file's functor ids by C06's functors
+   (T.pfun: PAdd / PCancel / PUser):
+     T.pending tq = map fun_of p                                  the same queue at poll time
+     due tq -> T.fire tq script = T.Ok (tq', _) ->
+       T.pending tq' = T.pending tq ++ map fun_of (hq tc CbRead)   the same functors queued by the timer callbacks
+     hq wc CbRead = []                                             EventLoop::handleRead queues nothing
+   Then the batch this file's doPendingFunctors runs is C06's queue after the expiry, in the same
+   order; and (last clause) THE STALE WAKE-UP: empty queue, timerfd not due, w > 0 - the iteration
+   runs exactly handleRead of the wake-up channel, no functor and no timer, and leaves the counter
+   0 (the "consumes a stale wake-up" case of C09_unblocked_iteration_progress). *)
+Theorem C09_link_dueb_def : forall tq,
+  dueb tq = match T.armed tq with Some x => (x <=? T.clk tq)%Z | None => false end /\
+  (dueb tq = true <-> due tq).
+Proof. exact L2_dueb_def. Qed.
+Print Assumptions C09_link_dueb_def.
+
+Theorem C09_unblocked_iteration_views_connected :
+  forall h hq fb runs user qw wc tc wfd tfd st sp w rd p tq choice script (fun_of : nat -> T.pfun),
+  reachEC st sp -> loop_channels sp wc tc wfd tfd ->
+  others_quiet sp wc tc (env_of w rd tq) ->
+  runs wc = true -> runs tc = true -> (forall k, h wc k = []) -> (forall k, h tc k = []) ->
+  tq_reach tq ->
+  (forall log, (forall ck, In ck log -> ck = (wc, CbRead) \/ ck = (tc, CbRead)) ->
+     functors_ok fb sp (p ++ flat_map (fun ck => hq (fst ck) (snd ck)) log)) ->
+  (0 < w)%N \/ due tq ->
+  hq wc CbRead = [] ->
+  T.pending tq = map fun_of p ->
+  (due tq -> forall tq' ev, T.fire tq script = T.Ok (tq', ev) ->
+     T.pending tq' = T.pending tq ++ map fun_of (hq tc CbRead)) ->
+  exists st' e' p' tq' act log ran ev,
+    combined_iter h hq fb runs user qw wc tc wfd tfd st w rd p tq choice script
+      = Some (st', e', p', tq', (act, log, ran, ev)) /\
+    reachEC st' (spec_run sp (functors_ops fb ran)) /\
+    ran = p ++ (if dueb tq then hq tc CbRead else []) /\
+    T.pending tq' = map fun_of ran /\
+    p' = functors_queued fb ran /\
+    k_wake e' = ((if qw true false true
+                  then N.of_nat (length (if dueb tq then hq tc CbRead else [])) else 0)
+                 + (if qw true true true then N.of_nat (length p') else 0))%N /\
+    (p = [] -> ~ due tq ->
+       log = [(wc, CbRead)] /\ ran = [] /\ p' = [] /\ k_wake e' = 0%N /\ tq' = tq /\ ev = []).
+Proof. exact L2_iteration_views_connected. Qed.
+Print Assumptions C09_unblocked_iteration_views_connected.
+
+(* non-vacuity: the connecting hypotheses are satisfied - one due timer whose callback queues a
+   user functor (script [[CQueue []]]), functor id 7 standing for it: the batch is [7] here and
+   [PUser []] in C06's queue.  And the stale wake-up: counter 1, nothing queued, timer not due -
+   only handleRead of the wake-up channel (channel 1) runs, counter 0 afterwards, timer queue
+   untouched, and the next poll blocks. *)
+Example C09_link_ex_views_connected : exists tq st' e' p' tq' act log ev,
+  tq_reach tq /\ due tq /\ T.pending tq = map l2c_fun_of [] /\ l2c_hq 1 CbRead = [] /\
+  (forall tq1 ev1, T.fire tq l2c_script = T.Ok (tq1, ev1) ->
+     T.pending tq1 = T.pending tq ++ map l2c_fun_of (l2c_hq 0 CbRead)) /\
+  combined_iter (fun _ _ => []) l2c_hq l2c_fb all_run (fun _ _ e => e) queue_wakes 1 0 4 3
+    l2c_st0 0 (fun _ => 0%N) [] tq [] l2c_script = Some (st', e', p', tq', (act, log, [7], ev)) /\
+  T.pending tq' = [T.PUser []] /\ p' = [8] /\ k_wake e' = 1%N.
+Proof. exact l2_ex_views_connected. Qed.
+Example C09_link_ex_stale_wakeup : exists tq st' e' p' tq' act ev,
+  tq_reach tq /\ ~ due tq /\
+  combined_iter (fun _ _ => []) l2c_hq l2c_fb all_run (fun _ _ e => e) queue_wakes 1 0 4 3
+    l2c_st0 1 (fun _ => 0%N) [] tq [] l2c_script = Some (st', e', p', tq', (act, [(1, CbRead)], [], ev)) /\
+  p' = [] /\ k_wake e' = 0%N /\ tq' = tq /\ ev = [] /\
+  ep_full st' (env_ready 4 3 (env_of (k_wake e') (fun _ => 0%N) tq')) = [].
+Proof. exact l2_ex_stale_wakeup. Qed.
